@@ -38,7 +38,9 @@ import (
 
 const rule = "document whose type graph has >= 2 struct types and at least one of: an array of structs, a (self/mutually) recursive type, " +
 	"an absent struct reference (null, omitted, or null inside an array), a domain other than the full standard four fields (incl. no EIP712Domain type, primaryType = EIP712Domain); " +
-	"ABI cases: tuple with >= 2 struct types; distinct by hash of the case (all rendered JSON texts + key)"
+	"ABI cases: tuple with >= 2 struct types; histories: at least one document (or in-place edit) related to an earlier one of the same history " +
+	"(same domain values / other EIP712Domain type, same message / other member types or order, same struct names / other members, same types / other values or primary type, the same document again); " +
+	"shared: the document rule, one decoded payload hashed by 4..16 goroutines at once; distinct by hash of the case (all rendered JSON texts + key)"
 
 func init() {
 	logrus.SetOutput(io.Discard)
@@ -203,8 +205,10 @@ func checkSignature(res *ethsigner.EIP712Result, digest []byte, key []byte) (vs 
 // The documents of a history agree on what a memo could be keyed on — the domain VALUES
 // (with another EIP712Domain type over them: another subset of the fields, the others being
 // extra fields of the domain object; another member order; another type for a field), the
-// struct NAMES (with other member lists), the type definitions (with another message,
-// another primary type, other domain values) — and some are the same document again.
+// MESSAGE (with the members of the primary type declared in another order / with other
+// types their values also have), the struct NAMES (with other member lists), the type
+// definitions (with another message, another primary type, other domain values) — and
+// some are the same document again.
 // Some are decoded into a new TypedData, some into one that was hashed before (with and
 // without clearing it first), some steps edit a decoded TypedData in place.  The judge
 // (tdgen.RunSession) holds every digest against the reference digest of what the variable
@@ -224,14 +228,14 @@ func judgeHist(c HistCase) []evid.Violation {
 	if err != nil || len(kb) != 32 {
 		return []evid.Violation{evid.V("harness", "bad key")}
 	}
-	o := tdgen.Options{Signer: secp256k1.KeyPairFromBytes(kb), PayloadReadOnly: true}
+	o := tdgen.Options{Signer: secp256k1.KeyPairFromBytes(kb), PayloadUnchanged: true, HashStruct: true}
 	if c.FullSig {
 		o.CheckSignature = func(res *ethsigner.EIP712Result, digest []byte) []evid.Violation { return checkSignature(res, digest, kb) }
 	}
 	return tdgen.RunSession(c.Session, o)
 }
 
-var histRelations = []string{"same", "domain-type", "domain-type", "domain-type", "domain-values", "message", "members", "primary", "unrelated", "edit", "edit"}
+var histRelations = []string{"same", "domain-type", "domain-type", "domain-type", "domain-values", "message", "members", "member-types", "member-types", "primary", "unrelated", "edit", "edit"}
 
 func genHistCase(rt *rapid.T) (HistCase, []string, bool) {
 	base := tdgen.GenParts(rt, 4)
@@ -292,7 +296,17 @@ func genHistCase(rt *rapid.T) (HistCase, []string, bool) {
 			} else {
 				v := rapid.SampledFrom(cand).Draw(rt, l+".var")
 				p := held[v].Clone()
-				switch rapid.IntRange(0, 2).Draw(rt, l+".edit") {
+				switch rapid.IntRange(0, 3).Draw(rt, l+".edit") {
+				case 3:
+					// the declared type of one member is changed in place (its value also has the new type)
+					tn, mi, nt, ok := p.RetypeInPlace(rt, l+".rt")
+					if !ok {
+						steps = append(steps, tdgen.Step{Var: v, Op: "hash", Via: via(l), WellFormed: true})
+						classes["hist:edit:hash-again"] = true
+						break
+					}
+					steps = append(steps, tdgen.Step{Var: v, Op: "set-member", Path: []string{tn, fmt.Sprint(mi), "type"}, Value: nt, Via: via(l), WellFormed: true})
+					classes["hist:edit:member-type-in-place"] = true
 				case 0:
 					// another EIP712Domain type over the same values, written into the variable's type set
 					q := p.WithDomainType(rt, l+".dt")
@@ -334,6 +348,8 @@ func genHistCase(rt *rapid.T) (HistCase, []string, bool) {
 			next = from.WithMessage(rt, l+".msg")
 		case "members":
 			next = from.WithMembers(rt, l+".mem")
+		case "member-types":
+			next = from.WithMemberTypes(rt, l+".mt")
 		case "primary":
 			next = from.WithPrimary(rt, l+".pt")
 		default:
@@ -599,8 +615,9 @@ func compareDerived(pt string, ts eip712.TypeSet, primary string, hand eip712ref
 //
 // (kind "concurrent" judges independent cases from several goroutines; state that hangs off
 // one shared definition is only reached when the callers share that definition.)  Each round
-// decodes the document anew — the first use of the fresh objects is part of the race — and
-// starts Workers goroutines that hash at the same time: the one *TypedData itself, a
+// decodes the document anew — the first use of the fresh objects is part of the race, except
+// for a payload without EIP712Domain type / domain object, into which EncodeTypedDataV4
+// writes the empty ones: that gets one call before it is shared — and starts Workers goroutines that hash at the same time: the one *TypedData itself, a
 // TypedData of their own over the shared type set / domain / message maps, HashStruct over
 // the shared type set and message, ABItoTypedDataV4 over one shared type tree.  Every answer
 // must be the reference's, and what was shared must be left as it was.
@@ -639,6 +656,14 @@ func judgeShared(c SharedCase) (vs []evid.Violation) {
 		td := new(eip712.TypedData)
 		if err := json.Unmarshal(c.Doc, td); err != nil {
 			return []evid.Violation{evid.V("accept-well-formed", "json.Unmarshal into TypedData failed: %v", err)}
+		}
+		// EncodeTypedDataV4 fills the empty EIP712Domain type / domain object into a payload that
+		// has none: such a payload gets that from one call before it is shared (what is shared
+		// is then only read); the others are shared untouched, their first use is part of the race
+		if _, declared := td.Types[eip712.EIP712Domain]; !declared || td.Domain == nil {
+			if d, err := eip712.EncodeTypedDataV4(ctx, td); err != nil || !bytes.Equal(d, ref.Result.Digest) {
+				return []evid.Violation{evid.V("digest", "EncodeTypedDataV4 = %x / %v, reference %x", []byte(d), err, ref.Result.Digest)}
+			}
 		}
 		_, domainDeclared := td.Types[eip712.EIP712Domain]
 		before, err := tdgen.Snapshot(td)
@@ -714,7 +739,7 @@ func judgeShared(c SharedCase) (vs []evid.Violation) {
 		wg.Wait()
 		// what the goroutines shared was only read
 		if after, err := tdgen.Snapshot(td); err != nil || tdgen.Canon(after) != tdgen.Canon(before) {
-			report(evid.V("payload-unchanged", "round %d: hashing wrote into the TypedData / type set the goroutines shared (%v)\nbefore: %s\nafter:  %s", round, err, tdgen.Canon(before), tdgen.Canon(after)))
+			report(evid.V("payload-unchanged", "round %d: hashing changed the TypedData / type set the goroutines shared (%v)\nbefore: %s\nafter:  %s", round, err, tdgen.Canon(before), tdgen.Canon(after)))
 		}
 		if tc != nil && tc.String() != tcBefore {
 			report(evid.V("abi-input-unchanged", "round %d: the shared type tree reads %q after ABItoTypedDataV4, %q before", round, tc.String(), tcBefore))
@@ -883,15 +908,17 @@ func TestCheck(t *testing.T) {
 	rec.Assume("reference: ref/eip712ref (written from the EIP-712 text with the v4 conventions, anchored to the EIP's Mail example and to the eth-sig-util v4 array example incl. their published signatures); keccak from x/crypto; curve arithmetic for recovery/verification: ref/secp (math/big)")
 	rec.Assume("not asserted: struct names that look like elementary types; an absent primary message; members without a value other than struct references; integers >= 2^53 written as JSON numbers (their reading is property C14 — here they are written as strings)")
 	rec.Assume("each JSON text is hashed 3 times from a fresh Unmarshal (Go map iteration order inside the library differs between evaluations)")
+	rec.Assume("histories (kind history): every hash is judged by the CONTENT of the TypedData variable at that moment (its four exported fields rendered to JSON): reference digest, and the same verdict as a new TypedData with that content; json.Unmarshal into a used variable merges into its maps (encoding/json) — the merged content is what is judged. EncodeTypedDataV4 may fill the empty EIP712Domain type / domain object into a payload that has none (deliberate); any other change of the payload is a violation")
+	rec.Assume("shared (kind shared): goroutines share one decoded payload / its type set, domain and message maps / one ABI type tree; a payload without EIP712Domain type or domain object is hashed once before it is shared (EncodeTypedDataV4 writes the defaults into it); concurrent-* kinds: the per-case judges from 4..8 goroutines at once on the heaviest cases")
 	kDoc := evid.NewKind(rec, "doc", judgeDoc)
-	cpool := evid.NewPool(rec, "concurrent", judgeDoc, 32)
+	cpool := tdgen.NewHeavyPool(rec, "concurrent", judgeDoc, 32)
 	kWallet := evid.NewKind(rec, "wallet", judgeWallet)
 	kABI := evid.NewKind(rec, "abi", judgeABI)
 	kHist := evid.NewKind(rec, "history", judgeHist)
 	kShared := evid.NewKind(rec, "shared", judgeShared).DeclareEach()
-	pABI := evid.NewPool(rec, "concurrent-abi", judgeABI, 32)
-	pWallet := evid.NewPool(rec, "concurrent-wallet", judgeWallet, 8)
-	pHist := evid.NewPool(rec, "concurrent-history", judgeHist, 16)
+	pABI := tdgen.NewHeavyPool(rec, "concurrent-abi", judgeABI, 32)
+	pWallet := tdgen.NewHeavyPool(rec, "concurrent-wallet", judgeWallet, 8)
+	pHist := tdgen.NewHeavyPool(rec, "concurrent-history", judgeHist, 16)
 	rec.Corpus(t)
 
 	atomTypes := map[string]bool{}
@@ -973,22 +1000,22 @@ func TestCheck(t *testing.T) {
 		pWallet.Offer(c)
 		kWallet.Check(rt, c, nt, "wallet")
 	})
-	cpool.Run(t, 8, 3, 8)
-	pABI.Run(t, 8, 3, 16)
-	pHist.Run(t, 8, 2, 8)
-	pWallet.Run(t, 4, 2, 8)
+	cpool.Run(t, "concurrent", 8, 3, 8)
+	pABI.Run(t, "concurrent-abi", 8, 3, 16)
+	pHist.Run(t, "concurrent-history", 8, 2, 8)
+	pWallet.Run(t, "concurrent-wallet", 4, 2, 8)
 }
 
 func TestReplay(t *testing.T) {
 	rec := evid.Start("C04", rule)
 	evid.NewKind(rec, "doc", judgeDoc)
-	evid.NewPool(rec, "concurrent", judgeDoc, 0)
+	tdgen.NewHeavyPool(rec, "concurrent", judgeDoc, 0)
 	evid.NewKind(rec, "wallet", judgeWallet)
 	evid.NewKind(rec, "abi", judgeABI)
 	evid.NewKind(rec, "history", judgeHist)
 	evid.NewKind(rec, "shared", judgeShared).DeclareEach()
-	evid.NewPool(rec, "concurrent-abi", judgeABI, 0)
-	evid.NewPool(rec, "concurrent-wallet", judgeWallet, 0)
-	evid.NewPool(rec, "concurrent-history", judgeHist, 0)
+	tdgen.NewHeavyPool(rec, "concurrent-abi", judgeABI, 0)
+	tdgen.NewHeavyPool(rec, "concurrent-wallet", judgeWallet, 0)
+	tdgen.NewHeavyPool(rec, "concurrent-history", judgeHist, 0)
 	rec.Replay(t)
 }
